@@ -181,3 +181,6 @@ def run(ctx):
     Q.rule_decode_set(ctx, "R9", m, params, sets)
     # a stored url is the prefix of its own sub-urls only if the stems of a host extend the stems of its parent host
     L.rule_model(ctx, "R10")
+    # the plain trie tokenises scheme-less urls through ensure_protocol: what it takes for a protocol decides where the host starts
+    from .c20 import branch_templates
+    branch_templates(ctx, "R11")
